@@ -76,7 +76,21 @@ func runSolver(ctx context.Context, sp solverSpec, file string, secs int) (strin
 func (x *Exec) queryText(o *Obligation, prelude string, model bool) string {
 	var b strings.Builder
 	b.WriteString("(set-option :produce-models true)\n(set-logic ALL)\n")
-	b.WriteString(prelude)
+	body := defsText(o.defs) + o.goal
+	// finite-sum axioms are only relevant (and only safe for instantiation) where the sum is used
+	for _, l := range strings.Split(prelude, "\n") {
+		if i := strings.Index(l, "(ssum_"); i >= 0 && strings.HasPrefix(l, "(assert (forall ((a (Array") {
+			name := l[i+1:]
+			if j := strings.IndexAny(name, " )"); j > 0 {
+				name = name[:j]
+			}
+			if !strings.Contains(body, name) {
+				continue
+			}
+		}
+		b.WriteString(l)
+		b.WriteString("\n")
+	}
 	b.WriteString(defsText(o.defs))
 	if !o.Cover {
 		b.WriteString("(assert (not " + o.goal + "))\n")
